@@ -23,6 +23,8 @@ import (
 
 	"github.com/skycoin/skycoin/src/api"
 	"github.com/skycoin/skycoin/src/cipher"
+	"github.com/skycoin/skycoin/src/cipher/bip39"
+	"github.com/skycoin/skycoin/src/cipher/bip44"
 	"github.com/skycoin/skycoin/src/cipher/crypto"
 	"github.com/skycoin/skycoin/src/coin"
 	"github.com/skycoin/skycoin/src/daemon"
@@ -161,6 +163,20 @@ func newWorld() *world {
 	mk(1, "c28_w1.wlt", wallet.Options{Type: wallet.WalletTypeDeterministic, Seed: "c28 wallet one seed", Label: "w1", GenerateN: 2,
 		Encrypt: true, Password: []byte("pw1"), CryptoType: crypto.CryptoTypeSha256Xor})
 	mk(2, "c28_w2.wlt", wallet.Options{Type: wallet.WalletTypeBip44, Seed: bip44Seed, Label: "w2", GenerateN: 2, CryptoType: crypto.CryptoTypeSha256Xor})
+	// a watch-only (xpub) wallet over the external chain of the bip44 wallet's account: same, funded, addresses
+	bseed, err := bip39.NewSeed(bip44Seed, "")
+	must(err, "bip39.NewSeed")
+	bcoin, err := bip44.NewCoin(bseed, bip44.CoinTypeSkycoin)
+	must(err, "bip44.NewCoin")
+	acct, err := bcoin.Account(0)
+	must(err, "Account")
+	ext, err := acct.External()
+	must(err, "External")
+	w.sym["xpub3"] = ext.PublicKey().String()
+	mk(3, "c28_w3.wlt", wallet.Options{Type: wallet.WalletTypeXPub, XPub: w.sym["xpub3"], Label: "w3", GenerateN: 2})
+	if w.sym["w3a0"] != w.sym["w2a0"] {
+		panic("harness: the xpub wallet does not watch the bip44 wallet's first address")
+	}
 	w.sym["seed0"] = "c28 wallet zero seed"
 	w.sym["seed1"] = "c28 wallet one seed"
 	w.sym["seed2"] = bip44Seed
@@ -805,4 +821,47 @@ func (w *world) mutateTxn(base coin.Transaction, mut string) coin.Transaction {
 		t.Type = typ
 	}
 	return t
+}
+
+// blockOf creates and executes a block from the pool transactions named by raw-symbol (e.g. raw.ds.k3.a)
+func (w *world) blockOf(names []string) string {
+	if w == nil {
+		panic("harness: block before reset")
+	}
+	var txns coin.Transactions
+	for _, n := range names {
+		b, err := hex.DecodeString(w.sym[n])
+		if err != nil || len(b) == 0 {
+			return "err unknown-symbol"
+		}
+		t, err := coin.DeserializeTransaction(b)
+		if err != nil {
+			return "err undecodable"
+		}
+		txns = append(txns, t)
+	}
+	b, err := w.v.CreateBlockFromTxns(txns, w.now+600)
+	if err != nil {
+		return "err create"
+	}
+	sb := coin.SignedBlock{Block: b, Sig: cipher.MustSignHash(b.HashHeader(), w.pubSec)}
+	if err := w.v.ExecuteSignedBlock(sb); err != nil {
+		return "err execute"
+	}
+	w.now += 600
+	var keep []coin.Transaction
+	for _, p := range w.pool {
+		in := false
+		for _, t := range sb.Body.Transactions {
+			if t.Hash() == p.Hash() {
+				in = true
+			}
+		}
+		if !in {
+			keep = append(keep, p)
+		}
+	}
+	w.pool = keep
+	w.record(&sb)
+	return "ok " + strconv.FormatUint(sb.Head.BkSeq, 10)
 }
